@@ -293,6 +293,42 @@ impl<C: SymBridge> Lab<C> for SymLab<C> {
             }
         }
     }
+    fn watch_serialization(&mut self, on: bool) {
+        symcore::with(|c| {
+            c.ser_log_on = on;
+            if on {
+                c.ser_log.clear();
+            }
+        })
+    }
+    fn leaked(&mut self, rendered: &str, secrets: &[Scalar<C>]) -> bool {
+        let secs: Vec<S> = secrets.iter().map(|x| C::s_out(*x)).collect();
+        let text = rendered.to_lowercase();
+        symcore::with(|c| {
+            let mut secret_atoms = std::collections::BTreeSet::new();
+            for s in &secs {
+                secret_atoms.extend(c.deep_support(s.0));
+            }
+            for (_, t) in c.ser_log.clone() {
+                let ds = c.deep_support(t);
+                if ds.iter().any(|a| secret_atoms.contains(a)) {
+                    return true;
+                }
+            }
+            // the block encoding of a secret (or of its representative) in hex
+            for s in &secs {
+                let r = c.repr(s.0);
+                for h in [s.0, r] {
+                    let b = symcore::block32(symcore::TAG_S, h);
+                    let hex: String = b.iter().map(|x| format!("{x:02x}")).collect();
+                    if text.contains(&hex) {
+                        return true;
+                    }
+                }
+            }
+            false
+        })
+    }
     fn note(&mut self, s: &str) {
         self.notes.push(s.to_string());
     }
